@@ -395,6 +395,44 @@ def disc(desc):
 UNSUPPORTED_MARK = "SimFS file has no fileno"
 
 
+class EnvSpy:
+    """Records which environment variables code of the package asks for while it dumps or
+    loads.  The environment is process-global state outside the file: the harness later
+    re-runs the load with every such variable pointing at a directory of look-alike files
+    (see `names_and_environment`).  os.environ.get / `in` / os.getenv / expandvars /
+    expanduser all end in os._Environ.__getitem__."""
+
+    _STD = ("/os.py", "/_collections_abc.py", "/posixpath.py", "/genericpath.py", "/pathlib.py")
+
+    def __init__(self, into):
+        self.into = into
+
+    def __enter__(self):
+        cls = type(os.environ)
+        self._orig = cls.__getitem__
+        into, orig, std = self.into, self._orig, self._STD
+
+        def spy(env, key):
+            f = sys._getframe(1)
+            for _ in range(8):
+                if f is None:
+                    break
+                fn = f.f_code.co_filename
+                if not (fn.endswith(std) or fn.startswith("<frozen ")):
+                    if "/ciderpress/" in fn:
+                        into.add(key)
+                    break
+                f = f.f_back
+            return orig(env, key)
+
+        cls.__getitem__ = spy
+        return self
+
+    def __exit__(self, *a):
+        type(os.environ).__getitem__ = self._orig
+        return False
+
+
 class Checker:
     def __init__(self, real_dir=None):
         self.fs = SimFS(ROOT, real_dir=real_dir)
@@ -404,6 +442,7 @@ class Checker:
         self.dg = Digest()
         self.sample = None
         self.env = False
+        self.env_reads = set()
 
     def _ctx(self):
         """process-global NumPy state a user script may have changed (print options, error
@@ -425,7 +464,7 @@ class Checker:
         if plan:
             self.fs.arm_next("r", **plan)
         try:
-            with self._ctx():
+            with self._ctx(), EnvSpy(self.env_reads):
                 o = do_load(kind, fmt, path, explicit)
         except Exception as e:
             self.fs.disarm()
@@ -561,6 +600,8 @@ def run_enum(spec, real_dir=None):
             ck.stats["enum_objects"] += 1
             ck.stats["exhaustive_write_enum"] += 1
             return finish(ck, spec, nontrivial=True)
+        # 2b. how the file is named and what the process environment says
+        names_and_environment(ck, obj, kind, fmt, desc, good, ref, pseed, rp)
         # 3. short writes / short reads (legal; must be invisible)
         for cn in ("one", "third", "seven", "rand"):
             if cn == "one" and len(good) > 200000:
@@ -625,6 +666,82 @@ def run_enum(spec, real_dir=None):
         return finish(ck, spec, nontrivial=True, extra={"good_b64": None})
     finally:
         fs.uninstall()
+
+
+def names_and_environment(ck, obj, kind, fmt, desc, good, ref, pseed, rp):
+    """The file is the only carrier of the object: what is loaded must not depend on how the
+    file is named (relative to the working directory, in a sub-directory, under the other
+    recognised extension or none when the format is stated) nor on the process environment
+    (every variable the package is seen to read while loading is pointed at a directory that
+    holds a different object under the same name)."""
+    fs = ck.fs
+    S = lambda w: site(kind, fmt, w)  # noqa: E731
+    D = disc(desc)
+    wd = ROOT + "/wd"
+    fs.sim_cwd = wd
+    try:
+        rels = ["rel" + EXT[fmt], "sub/dir/rel" + EXT[fmt], "./rel" + EXT[fmt], "../wd/rel" + EXT[fmt]]
+        fs.write_bytes(wd + "/rel" + EXT[fmt], good)
+        fs.write_bytes(wd + "/sub/dir/rel" + EXT[fmt], good)
+        for rel in rels:
+            st, info, _ = ck.try_load(kind, fmt, rel, pseed)
+            ck.stats["relative_name_loads"] += 1
+            if st != "ok" or info != ref:
+                ck.v("names:%s:%s:relative-name" % (S("load"), D), "%s: %s %s" % (rel, st, str(info)[:80]), rp)
+                break
+        st, info = ck.try_dump(obj, kind, fmt, "out" + EXT[fmt])
+        if st != "ok" or fs.files.get(wd + "/out" + EXT[fmt]) != good:
+            ck.v("names:%s:%s:relative-name" % (S("dump"), D), "dump under a relative name: %s %s" % (st, info), rp)
+        if kind == "model":
+            # the stated format decides, whatever the name ends in
+            other_ext = {".yaml": ".joblib", ".joblib": ".yaml"}[EXT[fmt]]
+            for nm in ("alt" + other_ext, "alt.dat", "alt", "alt" + EXT[fmt] + ".bak"):
+                fs.write_bytes(wd + "/" + nm, good)
+                for p in (wd + "/" + nm, nm):
+                    st, info, _ = ck.try_load(kind, fmt, p, pseed, explicit=True)
+                    ck.stats["stated_format_loads"] += 1
+                    if st != "ok" or info != ref:
+                        ck.v("names:%s:%s:stated-format-not-used" % (S("load"), D), "%s: %s %s" % (p, st, str(info)[:80]), rp)
+                        break
+        # environment: look-alike files where the variables the package reads point to
+        reads = sorted(ck.env_reads)
+        if reads:
+            d2 = dict(desc)
+            d2["decoy"] = 1
+            if "seed" in d2:
+                d2["seed"] = d2["seed"] + 1
+            try:
+                dobj, dkind = make_obj(d2)
+                dref = EVAL[dkind](dobj, pseed) + "|" + type_sig(dobj, dkind)
+            except Exception:
+                dobj = None
+            if dobj is not None and dkind == kind and dref != ref:
+                decoy = ROOT + "/elsewhere"
+                st, _ = ck.try_dump(dobj, kind, fmt, decoy + "/rel" + EXT[fmt])
+                fs.write_bytes(decoy + "/sub/dir/rel" + EXT[fmt], fs.read_bytes(decoy + "/rel" + EXT[fmt]))
+                fs.write_bytes(decoy + wd + "/rel" + EXT[fmt], fs.read_bytes(decoy + "/rel" + EXT[fmt]))
+                saved = {v: os.environ.get(v) for v in reads}
+                try:
+                    for v in reads:
+                        os.environ[v] = decoy
+                    for p in (wd + "/rel" + EXT[fmt], "rel" + EXT[fmt], "sub/dir/rel" + EXT[fmt]):
+                        st, info, _ = ck.try_load(kind, fmt, p, pseed)
+                        ck.stats["loads_under_changed_environment"] += 1
+                        if st != "ok" or info != ref:
+                            ck.v(
+                                "names:%s:%s:environment-decides-what-is-loaded" % (S("load"), D),
+                                "with %s set: %s %s" % (",".join(reads), st, str(info)[:80]),
+                                rp,
+                            )
+                            break
+                finally:
+                    for v, old in saved.items():
+                        if old is None:
+                            os.environ.pop(v, None)
+                        else:
+                            os.environ[v] = old
+    finally:
+        fs.sim_cwd = None
 
 
 def finish(ck, spec, nontrivial, extra=None):
@@ -990,6 +1107,65 @@ def run_history(spec):
 # ---------------------------------------------------------------------------------
 # restart: fresh interpreter, other PYTHONHASHSEED, only the bytes survive
 # ---------------------------------------------------------------------------------
+def _child(job, seed, opt=False):
+    env = dict(os.environ)
+    env["PYTHONHASHSEED"] = str(1 + (seed % 4000))
+    env["PYTHONPATH"] = os.path.dirname(os.path.dirname(os.path.dirname(os.path.abspath(__file__))))
+    p = subprocess.run(
+        [sys.executable] + (["-O"] if opt else []) + ["-m", "cidersim.engines.fsim_child"],
+        input=json.dumps(job).encode(),
+        capture_output=True,
+        env=env,
+        timeout=900,
+    )
+    if p.returncode != 0:
+        return None, "rc=%s %s" % (p.returncode, p.stderr.decode()[-500:])
+    return json.loads(p.stdout.decode().strip().splitlines()[-1]), None
+
+
+def run_restart2(spec):
+    """Two fresh processes with lives of their own: a writer builds, uses and dumps the objects;
+    a reader first builds and uses *other* objects of the same kinds (same construction order,
+    other parameters), then loads the writer's files, and finally uses its own objects again.
+    Whatever a process counts, numbers or caches per process must not travel with the file."""
+    ck = Checker()
+    rp = {"property": PROP, "engine": "fsim", "case": spec}
+    refs = []
+    for desc, fmt in spec["items"]:
+        obj, kind = make_obj(desc)
+        refs.append(EVAL[kind](obj, 11) + "|" + type_sig(obj, kind))
+        ck.dg.add(refs[-1])
+    w, err = _child({"write_items": spec["items"], "probe_seed": 11}, spec["seed"])
+    if w is None:
+        ck.v("restart:writer-process-died", err, rp)
+        return finish(ck, spec, nontrivial=False)
+    files = w["files"]
+    for f, r, (desc, fmt) in zip(files, refs, spec["items"]):
+        if f["ref"] != r:
+            ck.v("restart:%s:evaluates-differently-in-fresh-process" % disc(desc), "object built from one recipe in two processes", rp)
+    pre = []
+    for desc, fmt in spec["items"]:
+        d2 = dict(desc)
+        d2["seed"] = d2.get("seed", 0) + 1
+        d2["other"] = 1
+        pre.append(d2)
+    r, err = _child({"files": files, "pre_items": pre, "probe_seed": 11}, spec["seed"] + 1, opt=bool(spec["seed"] % 2))
+    if r is None:
+        ck.v("restart:child-died", err, rp)
+        return finish(ck, spec, nontrivial=False)
+    for f, got in zip(files, r["results"]):
+        ck.stats["restart_loads"] += 1
+        if got != f["ref"]:
+            ck.v("restart:%s:differs-in-busy-fresh-process" % site(f["kind"], f["fmt"], "load"), "path %s: %s" % (f["path"], str(got)[:120]), rp)
+    if r["pre_changed"]:
+        ck.v("restart:objects-of-the-reader-changed-by-load", "reader objects %s evaluate differently after the files were loaded" % r["pre_changed"][:6], rp)
+    ck.stats["restarts"] = 2
+    ck.stats["two_process_restarts"] = 1
+    ck.stats["reader_objects_built_before_load"] = r["pre"]
+    ck.sample = {"restart_items": len(files), "reader_pre_objects": r["pre"]}
+    return finish(ck, spec, nontrivial=len(files) > 0)
+
+
 def restart_check(files, seed, rp):
     job = {"files": files, "probe_seed": 11}
     env = dict(os.environ)
@@ -1253,6 +1429,12 @@ def plan(tier, seed, args):
     nb = 6 if tier == "quick" else 24
     for b in range(nb):
         cases.append({"kind": "restart", "items": items[b::nb], "seed": rng.below(10**6)})
+    # writer process / busy reader process
+    spl = [it for it in items if it[0]["obj"] == "spline" or (it[0]["obj"] == "model" and "spline" in str(it[0].get("ev")))]
+    oth = [it for it in items if it not in spl]
+    for b in range(2 if tier == "quick" else 12):
+        sel = spl[b::2][:6] + oth[b::7][:4] if tier == "quick" else [spl[rng.below(len(spl))] for _ in range(6)] + [oth[rng.below(len(oth))] for _ in range(4)]
+        cases.append({"kind": "restart2", "items": sel, "seed": rng.below(10**6)})
     # corruption
     for d in range(2 if tier == "quick" else 8):
         cases.append({"kind": "corrupt", "seed": rng.below(10**6)})
@@ -1272,6 +1454,8 @@ def run_case(spec):
     k = spec["kind"]
     if k == "enum":
         return run_enum(spec)
+    if k == "restart2":
+        return run_restart2(spec)
     if k == "corrupt":
         return run_corrupt(spec)
     if k == "history":
